@@ -200,7 +200,8 @@ pub fn gen_prog_with_cfg(rng: &mut Rng, k: &Knobs, cfg: ProgCfg) -> (ProgCase, G
     let use_enc = !reordered && rng.chance(k.enc_api_pct, 100);
     let mixed = !use_enc && rng.chance(k.mixed_api_pct, 100);
     let vstart = if rng.chance(k.start_offset_pct, 100) {
-        *rng.pick(&[0.5f64, 1.0, 10.0, 3600.0, 0.0333, 1.0 / 3.0, 100000.0 / 90000.0])
+        // includes starts around and beyond 2^32 ticks (13.25 h): wall-clock / uptime based timestamps
+        *rng.pick(&[0.5f64, 1.0, 10.0, 3600.0, 0.0333, 1.0 / 3.0, 100000.0 / 90000.0, 47721.0, 47721.8, 50000.0, 1_000_000.0])
     } else {
         0.0
     };
@@ -251,8 +252,16 @@ pub fn gen_prog_with_cfg(rng: &mut Rng, k: &Knobs, cfg: ProgCfg) -> (ProgCase, G
             // presentation time = the decode time of the display slot (+ delay)
             pts_list[d] = dts_list[order[d]] + delay_frames as f64 * step;
         }
-        if delay_frames == 0 {
-            // keep the first frame's pts == dts so that negative offsets appear only on B pictures
+        // open-GOP leading pictures: decoded right after the first key frame but presented BEFORE it
+        // (pts earlier than the first frame's decode time); legal as long as pts stays non-negative
+        if n_video >= 3 && dts_list[0] > 0.0 && rng.chance(1, 4) {
+            let lead = rng.range(1, 2.min(n_video as u64 - 1)) as usize;
+            for j in 1..=lead {
+                let p = dts_list[0] - step.max(1.0 / 90000.0) * (lead + 1 - j) as f64 * 0.5;
+                if p >= 0.0 {
+                    pts_list[j] = p;
+                }
+            }
         }
     }
     let mut events: Vec<Ev> = Vec::new();
@@ -661,6 +670,8 @@ pub fn gen_boundary(rng: &mut Rng) -> ProgCase {
             let off = (1u64 << 31) - 2 + rng.below(5);
             let neg = rng.bool();
             let base = if neg { off + 10 } else { 0 };
+            // whole ticks, or timestamps with fractional tick parts that round in opposite directions
+            let frac = rng.chance(1, 2);
             for i in 0..3u64 {
                 let d = base + i * 3000;
                 let p = if i == 1 {
@@ -672,7 +683,14 @@ pub fn gen_boundary(rng: &mut Rng) -> ProgCase {
                 } else {
                     d
                 };
-                vid(rng, &mut ops, p, Some(d), i == 0);
+                if frac && i == 1 {
+                    let (fp, fd) = *rng.pick(&[(0.7f64, 0.4f64), (0.4, 0.7), (0.6, 0.3), (0.3, 0.6), (0.49, 0.0), (0.0, 0.49)]);
+                    let shape = FrameShape::Delta;
+                    let f = frames::build_video(rng, codec, shape, p ^ 0x5a5a, 12, false);
+                    ops.push(Op::VideoDts { pts: F((p as f64 + fp) / 90000.0), dts: F((d as f64 + fd) / 90000.0), data: Hex(f.data), key: false, cc: false });
+                } else {
+                    vid(rng, &mut ops, p, Some(d), i == 0);
+                }
             }
         }
         4 => {
